@@ -76,23 +76,28 @@ def make_policy(p):
     return Retry(**kw)
 
 
-def make_headers(cfg):
-    """(constructor-level headers or None, request-level headers or None)"""
+def _carry(carrier, entries):
     from urllib3 import HTTPHeaderDict
-    ca = cfg["carrier"]
-    if ca in ("hdict", "mhdict"):
+    if carrier == "none":
+        return None
+    if carrier == "hdict":
         h = HTTPHeaderDict()
-        for e in cfg["hdrs"]:
+        for e in entries:
             for v in e["vals"]:
                 h.add(spell(e["kind"], e["sp"]), v)
-    else:
-        h = {}
-        for e in cfg["hdrs"]:
-            name = spell(e["kind"], e["sp"])
-            if name in h or len(e["vals"]) != 1:
-                raise tlc.MachineryError(f"scenario not expressible as a dict: {cfg['hdrs']}")
-            h[name] = e["vals"][0]
-    return (h, None) if ca in ("mdict", "mhdict") else (None, h)
+        return h
+    h = {}
+    for e in entries:
+        name = spell(e["kind"], e["sp"])
+        if name in h or len(e["vals"]) != 1:
+            raise tlc.MachineryError(f"scenario not expressible as a dict: {entries}")
+        h[name] = e["vals"][0]
+    return h
+
+
+def make_headers(cfg):
+    """(pool- / manager-level default headers or None, request-level headers or None)"""
+    return _carry(cfg["dcarrier"], cfg["dhdrs"]), _carry(cfg["carrier"], cfg["hdrs"])
 
 
 _ABS = re.compile(r"^(https?)://([^/:?#]+)(?::(\d+))?(/[^?#]*)?")
@@ -162,7 +167,7 @@ def run_scenario(sc, skip=()):
     if rhdrs is not None:
         rkw["headers"] = rhdrs
     rpol = make_policy(cfg["reqpol"])
-    if rpol is not None:
+    if rpol is not None or cfg["reqnone"]:     # reqnone: the kwarg is passed explicitly as retries=None
         rkw["retries"] = rpol
     if not cfg["flag"]:
         rkw["redirect"] = False
@@ -261,7 +266,7 @@ C05_CLAUSES = ["RedirectWithinBudget", "NoContactWhenDisabled", "SeeOtherRewrite
 C06_CLAUSES = ["SensitiveStripped", "OthersPreserved", "SingleHostRefuses"]
 COMMON_CLAUSES = ["OnlyDocumentedOutcomes", "RequestAfterFinalAnswer", "NoRequestObserved"]
 ACTIONS = ["DerivePolicy", "Attempt", "Respond", "Return", "PoolRedirect", "ManagerRedirect", "Follow", "Exhaust"]
-AS_IS = '{"D10"}'        # deviations of the Model that describe the code as it is (recorded, unrepaired findings)
+AS_IS = "{}"             # deviations of the Model that describe the code as it is (none: D1, D5, D10 are repaired)
 
 MC_CFG = """SPECIFICATION Spec
 CONSTANTS
@@ -307,48 +312,67 @@ def _expect_held(rep, name, r):
                       {"kind": "stage1", "run": name})
 
 
-def _expect_violated(rep, name, r, clause):
-    """A run with a named deviation switched on must trip exactly the clause it is aimed at (non-vacuity)."""
-    rep.stage1.append({"run": name, "distinct_states": r.distinct, "states_generated": r.generated, "depth": r.depth,
-                       "wall_s": round(r.wall, 2), "expected_violation": clause, "reported": r.violated})
-    if r.violated != [clause]:
-        raise tlc.MachineryError(f"stage 1 ({name}): expected TLC to report {clause}, got {r.violated} {r.error}")
-
-
-def stage1(rep, pid):
+def stage1_main(rep, pid):
+    """The exhaustive runs: Model |= every clause of both properties, for every chain the environment can produce."""
     quick = rep.tier == "quick"
-    # bounds of the free (environment picks every answer) exploration; thorough = deep chains over the small
-    # alphabet plus the full alphabet (all origin aliases, all Location forms) over chains of two answers
-    frees = [dict(maxhops=3, codes="{302, 303, 307}", alpha="small")] if quick else \
+    # quick: chains of two answers over the small alphabet (deeper chains are covered by the planned / simulated
+    # emission runs, on which TLC checks the same invariants); thorough: six answers over the small alphabet plus
+    # the full alphabet (all origin aliases, all Location forms) over two answers
+    frees = [dict(maxhops=2, codes="{303, 307}", alpha="small")] if quick else \
             [dict(maxhops=6, codes=ALL_CODES, alpha="small"), dict(maxhops=2, codes=ALL_CODES, alpha="full")]
-    # (1) the Model as the code is (recorded deviation D10 on): every clause of both properties, for every chain
     for free in frees:
-        r = tlc.run("MC_Redirect", mc_cfg(invs=INV_C05 + INV_C06 + ["SensitiveStrippedExceptD10"] + INV_MODEL, props=PROPS, **free),
+        r = tlc.run("MC_Redirect", mc_cfg(invs=INV_C05 + INV_C06 + ["SensitiveStripped"] + INV_MODEL, props=PROPS, **free),
                     workers="auto", heap="3g", timeout=7200)
-        _expect_held(rep, f"free as-is {free}", r)
-    # (2) per-action coverage read back (vacuity gate) on a one-answer run over every configuration
-    r = tlc.run("MC_Redirect", mc_cfg(maxhops=1, codes="{303, 307}", invs=["ClausesKnown"]), workers=min(4, JOBS), heap="2g", coverage=True,
-                timeout=3600)
-    rep.add_tlc("free as-is, one answer, with -coverage", r)
-    cov = {a: r.coverage.get(a, (0, 0))[1] for a in ACTIONS}
-    rep.extra["action_coverage"] = cov
-    if any(v == 0 for v in cov.values()):
-        raise tlc.MachineryError(f"vacuous stage 1: an action of the Model never fired: {cov}")
+        _expect_held(rep, f"free {free}", r)
+
+
+def gate_jobs(rep, pid):
+    """Small TLC runs executed next to the emission shards: the per-action coverage read-back and, per named
+    deviation of the Model, a run that must trip exactly the clause the deviation is aimed at (non-vacuity)."""
+    jobs = [("coverage", mc_cfg(maxhops=1, codes="{303, 307}", k=4, s=1, invs=["ClausesKnown"]), None)]
     if pid == "C05":
-        # (3) the repaired layering defect D1 as a deviation: the spec must see it (the clause is not vacuous)
-        r = tlc.run("MC_Redirect", mc_cfg(maxhops=1, dev='{"D1"}', client="pm", invs=["RedirectWithinBudget", "ExhaustionShape"]),
-                    workers=2, expect_fail=True, timeout=3600)
-        _expect_violated(rep, "deviation D1 (constructor policy ignored)", r, "RedirectWithinBudget")
+        jobs += [("deviation D1 (constructor policy ignored)",
+                  mc_cfg(maxhops=1, dev='{"D1"}', client="pm", invs=["RedirectWithinBudget", "ExhaustionShape"]), "RedirectWithinBudget"),
+                 ("deviation AbsentOnly (constructor policy ignored when the request passes retries=None)",
+                  mc_cfg(maxhops=1, dev='{"AbsentOnly"}', client="proxy", invs=["RedirectWithinBudget", "ExhaustionShape"]),
+                  "RedirectWithinBudget"),
+                 ("deviation KeepBody303", mc_cfg(maxhops=1, dev='{"KeepBody303"}', client="pool", invs=["SeeOtherRewrites"]),
+                  "SeeOtherRewrites")]
+        if rep.tier != "quick":
+            jobs += [("deviation NoJoin", mc_cfg(maxhops=1, dev='{"NoJoin"}', client="pm", invs=["RelativeResolved"]), "RelativeResolved")]
     else:
-        # (3) the design the property asks for (no deviation): SensitiveStripped itself holds, for the forwarding proxy too
-        for free in frees:
-            r = tlc.run("MC_Redirect", mc_cfg(dev="{}", client="proxy", invs=INV_C06 + ["SensitiveStripped", "ClausesKnown"],
-                                              props=["StrippedStaysStripped"], **free), workers="auto", heap="3g", timeout=7200)
-            _expect_held(rep, f"free design (no deviation), forwarding proxy {free}", r)
-        # (4) with D10 on, TLC reproduces the finding at design level
-        r = tlc.run("MC_Redirect", mc_cfg(maxhops=2, client="proxy", invs=["SensitiveStripped"]), workers=2, expect_fail=True,
-                    timeout=3600)
-        _expect_violated(rep, "deviation D10 (proxy pool asked for same-host)", r, "SensitiveStripped")
+        jobs += [("deviation D10 (proxy pool asked for same-host)",
+                  mc_cfg(maxhops=2, dev='{"D10"}', client="proxy", invs=["SensitiveStripped"]), "SensitiveStripped"),
+                 ("deviation EmptyIsMissing (an emptied header mapping is replaced by the defaults)",
+                  mc_cfg(maxhops=1, dev='{"EmptyIsMissing"}', client="pm", invs=["SensitiveStripped"]), "SensitiveStripped"),
+                 ("deviation IgnorePort", mc_cfg(maxhops=1, dev='{"IgnorePort"}', client="pool", invs=["SingleHostRefuses"]),
+                  "SingleHostRefuses")]
+        if rep.tier != "quick":
+            jobs += [("deviation FirstHopOnly", mc_cfg(maxhops=2, dev='{"FirstHopOnly"}', client="pm", invs=["SensitiveStripped"]),
+                      "SensitiveStripped")]
+    return jobs
+
+
+def _gate(args):
+    name, cfg_text, expect = args
+    r = tlc.run("MC_Redirect", cfg_text, workers=1, heap="2g", coverage=(name == "coverage"), expect_fail=expect is not None,
+                timeout=3600)
+    return {"gate": name, "expect": expect, "violated": r.violated, "error": r.error, "distinct": r.distinct,
+            "generated": r.generated, "depth": r.depth, "wall": r.wall,
+            "coverage": {a: r.coverage.get(a, (0, 0))[1] for a in ACTIONS} if name == "coverage" else None}
+
+
+def check_gate(rep, o):
+    rep.stage1.append({"run": o["gate"], "distinct_states": o["distinct"], "states_generated": o["generated"], "depth": o["depth"],
+                       "wall_s": round(o["wall"], 2), "expected_violation": o["expect"], "reported": o["violated"]})
+    if o["expect"] is None:
+        rep.states += o["distinct"]
+        rep.transitions += o["generated"]
+        rep.extra["action_coverage"] = o["coverage"]
+        if o["violated"] or any(v == 0 for v in o["coverage"].values()):
+            raise tlc.MachineryError(f"vacuous stage 1: an action of the Model never fired or the run failed: {o}")
+    elif o["violated"] != [o["expect"]]:
+        raise tlc.MachineryError(f"stage 1 ({o['gate']}): expected TLC to report {o['expect']}, got {o['violated']} {o['error']}")
 
 
 _SC = '<<"SC", "'
@@ -376,6 +400,16 @@ def classify(tr, verdict):
         tags.add("303-followed")
     if any(h["form"] in ("rel", "pathabs", "schemerel") for h in tr["hops"][: max(0, len(tr["wire"]) - 1)]):
         tags.add("relative-followed")
+    c = tr["cfg"]
+    if c["reqnone"] and c["clipol"]["kind"] != "none" and tr["hops"]:
+        tags.add("constructor-policy+explicit-None")
+    eff = c["hdrs"] if c["carrier"] != "none" else c["dhdrs"]
+    removable = set(c["reqpol"]["remove"] if c["reqpol"]["kind"] == "retry" else c["clipol"]["remove"] if
+                    (c["reqpol"]["kind"] == "none" and c["clipol"]["kind"] == "retry") else ["auth", "cookie", "pauth"])
+    if eff and all(e["kind"] in removable for e in eff) and len(tr["wire"]) >= 2 and c["client"] != "pool":
+        tags.add("only-removable-headers-followed")
+        if c["dhdrs"]:
+            tags.add("only-removable-headers-followed+defaults")
     return tags
 
 
@@ -391,7 +425,7 @@ def _emit_shard(args):
         if not ln.endswith('">>'):
             raise tlc.MachineryError("truncated scenario line: " + ln[:200])
         sc = json.loads(_unq(ln[len(_SC):-3]))
-        if sc["bad"] not in ("ok", "SensitiveStripped@forwarding-proxy-own-origin"):   # the recorded deviation D10
+        if sc["bad"] != "ok":
             raise tlc.MachineryError(f"the Model itself violates {sc['bad']} in an emitted scenario: {json.dumps(sc)[:600]}")
         scs.append(sc)
         traces.append(run_scenario(sc, skip))
@@ -463,13 +497,13 @@ def run_property(rep, pid):
     quick = rep.tier == "quick"
     skip = C06_CLAUSES if pid == "C05" else C05_CLAUSES
     findings = known.load(pid)
-    stage1(rep, pid)
+    stage1_main(rep, pid)
     K = 8 if quick else 16
     if quick:
-        plan = dict(skb=47, lb=3, skh=2003, lh=3) if pid == "C05" else dict(skb=211, lb=3, skh=401, lh=3)
+        plan = dict(skb=61, lb=3, skh=6007, lh=3) if pid == "C05" else dict(skb=283, lb=3, skh=1801, lh=3)
         nsim, nsimjobs = 400, 2
     else:
-        plan = dict(skb=11, lb=6, skh=401, lh=4) if pid == "C05" else dict(skb=47, lb=6, skh=61, lh=4)
+        plan = dict(skb=13, lb=6, skh=1201, lh=4) if pid == "C05" else dict(skb=61, lb=6, skh=181, lh=4)
         nsim, nsimjobs = 8000, 8
     jobs = []
     for s in range(K):
@@ -478,8 +512,14 @@ def run_property(rep, pid):
     for s in range(nsimjobs):
         jobs.append((mc_cfg(mode="free", maxhops=6, family="sim", view=False, alpha="full", invs=["EmitInv"]), skip,
                      nsim // nsimjobs, rep.seed * 100 + s + 1))
-    with mp.Pool(min(JOBS, len(jobs))) as pool:
-        outs = pool.map(_emit_shard, jobs, chunksize=1)
+    gates = gate_jobs(rep, pid)
+    with mp.Pool(min(JOBS, len(jobs) + len(gates))) as pool:
+        gres = [pool.apply_async(_gate, (g,)) for g in gates]
+        eres = [pool.apply_async(_emit_shard, (j,)) for j in jobs]
+        gouts = [x.get() for x in gres]
+        outs = [x.get() for x in eres]
+    for o in gouts:
+        check_gate(rep, o)
     tags = {}
     for o in outs:
         rep.traces += o["n"]
@@ -499,7 +539,8 @@ def run_property(rep, pid):
                       "scenario_tags": dict(sorted(tags.items())),
                       "emission_states": sum(o["distinct"] for o in outs), "trace_monitor_states": sum(o["vstates"] for o in outs)})
     need = ["followed", "303-followed", "relative-followed", "out:MaxRetryError", "out:HostChangedError", "out:resp3xx",
-            "out:resp2xx", "client:pm", "client:proxy", "client:pool"]
+            "out:resp2xx", "client:pm", "client:proxy", "client:pool", "constructor-policy+explicit-None",
+            "only-removable-headers-followed+defaults"]
     missing = [t for t in need if not tags.get(t)]
     if missing or nplanned < 500:
         raise tlc.MachineryError(f"scenario coverage too thin: missing {missing}, planned scenarios {nplanned}")
@@ -525,7 +566,7 @@ def replay_property(rep, pid, path):
     rep.states = rep.states or 1
     rep.transitions = rep.transitions or 1
     if case.get("kind") != "scenario":
-        stage1(rep, pid)
+        stage1_main(rep, pid)
         return
     tr = run_scenario(case["scenario"], case.get("skip", []))
     rep.evaluations += 1
